@@ -184,3 +184,7 @@ def run(P: Program, R: Report, tier: str) -> None:
 
     _c02r.history_shape(P, R)
     _c02r.registration(P, R, tier, A=A, facade=False)
+    # ---- R04.6 the annotator maintains the attribute the queries read (key names threaded from the feature dictionary)
+    from .annot import keys_threaded
+
+    keys_threaded(P, R, "R04.6", only=('tracklet',))
